@@ -320,3 +320,21 @@ package queryparser
 //@   ensures [C09] error_means_no_query: err != nil ==> pq == nil
 //@   ensures [C09] query_is_complete: err == nil ==> pq != nil && pq.Expr != nil
 //@   ensures [C09,C11] tree_is_complete: err == nil ==> ptOK(pq.Expr)
+
+// ---------------------------------------------------------------------------------------------------------------
+// walk.go — placeholder binding (C11). walk is recursive and takes a callback: it is verified once per callback that
+// is passed to it (a contract specialised to the closure), the recursive calls use the same contract.
+
+// numInput's callback keeps the largest placeholder number seen in the captured variable maxPlaceholder
+//@ func [C11] github.com/akrennmair/updog/internal/queryparser.walk$github.com/akrennmair/updog/driver.numInput$1(e, f) (result)
+//@   requires ptOK(e)
+//@   modifies heap cell.int32 at cellof(maxPlaceholder)
+//@   ensures [C11] result
+//@   ensures [C11] maxPlaceholder >= old(maxPlaceholder)
+//@   ensures [C11] every_placeholder_below_is_counted: forall x *updogv1.Query_Expression_Equal :: leafOf(x, e) ==> x.Placeholder <= maxPlaceholder
+//@   loop 1
+//@     invariant ptOK(e) && kAnd(e) && maxPlaceholder >= old(maxPlaceholder) && 0 <= $i
+//@     invariant forall j idx(e.Value.(*updogv1.Query_Expression_And_).And.Exprs), x *updogv1.Query_Expression_Equal :: j < $i && leafOf(x, e.Value.(*updogv1.Query_Expression_And_).And.Exprs[j]) ==> x.Placeholder <= maxPlaceholder
+//@   loop 2
+//@     invariant ptOK(e) && kOr(e) && maxPlaceholder >= old(maxPlaceholder) && 0 <= $i
+//@     invariant forall j idx(e.Value.(*updogv1.Query_Expression_Or_).Or.Exprs), x *updogv1.Query_Expression_Equal :: j < $i && leafOf(x, e.Value.(*updogv1.Query_Expression_Or_).Or.Exprs[j]) ==> x.Placeholder <= maxPlaceholder
